@@ -3,6 +3,8 @@
 // process holding the current registrations; a repeated update alters nothing.
 #include "monitors.hpp"
 
+#include <set>
+
 namespace vf {
 
 namespace {
@@ -188,6 +190,7 @@ int prop_history(Run& run) {
         uint64_t bseed = rng.next();
         int updates = 0;
         bool stop = false, abandoned = false;
+        std::set<type_id> ever_registered; // ids that were registered when some earlier update of this history ran
         Behaviour last;
         // start from everything registered half of the time
         if (rng.chance(1, 2)) {
@@ -311,6 +314,35 @@ int prop_history(Run& run) {
                                          witness_json(c, "behaviour after update #" + std::to_string(updates) + " of the history", "", "as registered now: " + ra, rb));
                     abandoned = true;
                     break;
+                }
+                // a class whose registration was removed is unknown again, as in a fresh process: the
+                // checked hash must not keep answering for its id (stock checked configuration only)
+                {
+                    Caps caps = w->caps();
+                    std::set<type_id> live;
+                    for (auto& rec : cur.records)
+                        live.insert(cur.ids[rec.cls][rec.alias]);
+                    if (caps.checked && caps.hash && !caps.map && !caps.projection && !caps.deferred) {
+                        for (auto id : ever_registered) {
+                            if (live.count(id))
+                                continue;
+                            const std::uintptr_t* vp = nullptr;
+                            set_stage("lookup-of-unloaded-class");
+                            Outcome lo = w->try_lookup(id, vp);
+                            set_stage("monitor");
+                            run.evaluations++;
+                            run.count("lookups-of-unloaded-classes");
+                            if (lo.kind != Outcome::UNKNOWN_CLASS) {
+                                stop = run.violation("C07:unloaded-class-still-known",
+                                                     witness_json(c, "dynamic_vptr of an object whose class was unregistered before update #" + std::to_string(updates), "", "unknown_class_error type=" + hex(id) + " (as in a fresh process)", lo.kind == Outcome::RAN ? "a v-table pointer" : lo.str()));
+                                abandoned = true;
+                                break;
+                            }
+                        }
+                        if (abandoned)
+                            break;
+                    }
+                    ever_registered.insert(live.begin(), live.end());
                 }
                 if (rng.chance(1, 2)) {
                     // update again with no change: nothing may change
